@@ -241,6 +241,23 @@ def check(prog: Program, tier: str) -> Result:
     res.ob("R15.3", "u_tube_volumes: pipe resistance = ln(r_out / r_in) / (n 2 pi k_p) (tubes in parallel)", ok, prog.loc(fi, f.exit[2]))
     if not ok:
         res.violation("R15.3", f"utube-rpipe|{rv.items[3].key()[:60]}", prog.loc(fi, f.exit[2]), q, f"the combined pipe resistance is {rv.items[3].key()[:120]}")
+    # convective resistance: the exchanger's OWN film coefficient (set by calc_fluid_pipe_resistance from the per-tube flow of
+    # its arrangement) over the total inner surface the code uses
+    rc_u = rv.items[2]
+    n_t = Rat.const(2) * Rat.atom("self.nPipes")
+    area_u = n_t * PI * (Rat.const(2) * rin) ** 2
+    ok = isinstance(rc_u, Rat) and rc_u.equals(Rat.const(1) / (Rat.atom("self.h_f") * area_u))
+    res.ob("R15.3", "u_tube_volumes: convective resistance = 1 / (h_f * inner surface) with the exchanger's own film coefficient self.h_f", ok, prog.loc(fi, f.exit[2]))
+    if not ok:
+        res.violation("R15.3", f"utube-rconv|{vkey(rc_u)[:60]}", prog.loc(fi, f.exit[2]), q,
+                      f"the convective resistance handed to the equivalent tube is {vkey(rc_u)[:140]} instead of 1 / (self.h_f * area): a film coefficient recomputed here does not know the "
+                      "per-tube flow of the arrangement (series tubes carry the whole borehole flow, parallel ones half)")
+    cfr_u = prog.method(f"{BH}.MultipleUTube", "calc_fluid_pipe_resistance")
+    flows = [ast.unparse(c.args[0]) for c in ast.walk(cfr_u.node) if isinstance(c, ast.Call) and (attr_chain(c.func) or "").endswith("convective_heat_transfer_coefficient_circular_pipe") and c.args]
+    ok = flows == ["self.m_flow_pipe"]
+    res.ob("R15.3", f"MultipleUTube.calc_fluid_pipe_resistance computes h_f from the per-tube flow self.m_flow_pipe ({flows})", ok, prog.loc(cfr_u, cfr_u.node))
+    if not ok:
+        res.violation("R15.3", f"utube-hf-flow|{flows}", prog.loc(cfr_u, cfr_u.node), cfr_u.qualname, f"the film coefficient of the multiple U-tube is computed for {flows} instead of the per-tube flow self.m_flow_pipe")
     q = f"{BH}.CoaxialPipe.concentric_tube_volumes"
     fi, eng, fin = _straight(prog, q, env={"self.r_inner": Seq([Rat.atom("RII"), Rat.atom("RIO")], "list"), "self.r_outer": Seq([Rat.atom("ROI"), Rat.atom("ROO")], "list")})
     res.analysed(q)
@@ -487,6 +504,9 @@ def _check_recompute(prog: Program, res: Result):
 
 
 VARIANTS = [
+    Variant("u_tube_volumes recomputes the film coefficient at borehole flow / nPipes (seeded C15_c)", "break",
+            [(BH, "        resist_conv = 1 / (self.h_f * area_surf_inner)  # Convection resistance (m.K/W)",
+              "        h_f = gt.pipes.convective_heat_transfer_coefficient_circular_pipe(self.m_flow_borehole / self.nPipes, self.r_in, self.fluid.mu, self.fluid.rho, self.fluid.k, self.fluid.cp, self.pipe.roughness)\n        resist_conv = 1 / (h_f * area_surf_inner)  # Convection resistance (m.K/W)")], "R15.3"),
     Variant("pipe-conductivity bracket narrowed to one decade below the estimate (seeded C15_b)", "break",
             [(BH, "        k_p_lower = eq_single_u_tube.pipe.k / 100.0", "        k_p_lower = eq_single_u_tube.pipe.k / 10.0")], "R15.5"),
     Variant("pipe-conductivity bracket widened", "benign",
